@@ -30,6 +30,22 @@ CHECKS["C14"] = dict(
     technique="TLA+ spec; TLC enumeration of the bounded input space with invariants; behaviour replay against the implementation with allocator ledger; trace validation by TLC",
     design="DESIGN.md §5 C14, §6 F3")
 
+CHECKS["C12"] = dict(
+    text="spec/Views.tla states that every conversion between Rust slices and CSliceRef/CSliceMut is the identity on (address, length, contents), that writes through mutable views land in the buffer, and that Option/Result/tuple <-> COption/CResult/CTupN keep variant and payload with payloads destroyed exactly once; spec/Utf8.tla is the RFC 3629 byte-class recogniser. TLC enumerates all chains of the stated depth and all byte strings of length <=4 over a 19-byte boundary alphabet (137 561 strings) with the predicted verdict; each is executed on the real types (4 element types incl. ZST and a 3-byte struct) and compared step by step.",
+    note="Trusted: TLC, rt/src/viewsad.rs. Spec->impl direction only (pure conversions; no implementation traces).",
+    technique="TLA+ specs; TLC enumeration of the bounded input/chain space with predicted observations; replay on the implementation",
+    design="DESIGN.md §5 C12")
+CHECKS["C13"] = dict(
+    text="spec/IntRes.tla models encoder/decoder with an explicit caller-owned output slot; TLC checks ZeroIffOk, SlotDiscipline, ReadOnlyOnZero, OsRoundTrip and NoErrorEncodesToZero on every script over the representative i32 code set and all shipped error flavours; every script is replayed on cglue::result (slot pre-filled with a byte pattern so an untouched slot is observable, droppable success payloads); random traces over random i32 codes are validated by TLC; thorough sweeps all 2^32 OS codes natively against the closed form transcribed from the spec. Trait-level int_result methods are exercised by the grammar harness when present in evidence.trait_level.",
+    note="Trusted: TLC, rt/src/intresad.rs. TLC integers are 32-bit, hence the native sweep for the full code space.",
+    technique="TLA+ spec with action properties checked by TLC; script replay on the implementation; trace validation by TLC",
+    design="DESIGN.md §5 C13")
+CHECKS["C15"] = dict(
+    text="TLC exhaustively checks spec/Feed.tla (source iterator, CIterator wrapper, closure/Vec/Extend sinks, stop positions, feed_into/feed_into_mut/Extend, item identities with destructor counts) and generates every behaviour of the stated depth plus long simulated ones; each is replayed on the real OpaqueCallback/FeedCallback/FromExtend/CIterator with per-step comparison of sink contents, invocation counts, reported counts, remaining source items and drop counts; random traces validated by TLC.",
+    note="Trusted: TLC, rt/src/feedad.rs, ledger allocator.",
+    technique="TLA+ spec + TLC exhaustive model check; behaviour replay; trace validation by TLC",
+    design="DESIGN.md §5 C15")
+
 NOT_YET = {}
 
 def main():
